@@ -1,7 +1,7 @@
 """C09 - reported locations point at the right source text (structural clauses)."""
 import re
 
-from mirlib import AnchorMissing, op_place
+from mirlib import AnchorMissing, op_place, is_bare
 from helpers import aggregates, vexpr, field_accesses, _vexpr_def
 import grammarflow
 import guards
@@ -359,6 +359,47 @@ def r_snippet_units(r, prog):
     r.floor(3)
 
 
+def r_highlight_bounds(r, prog):
+    """The two bounds handed to get_highlight, per line of the snippet: on the span's first line the underline starts at (start column - 1),
+    on every other line at 0; on the span's last line it ends at (end column - 1), on every other line at the line's width in characters.
+    Lines are numbered from 1 (enumerate index + 1). Decided from the values and the conditions of their assignments."""
+    f = prog.fn('slicec::slice_file::SliceFile::get_snippet')
+    cs = [c for c in f.calls() if c.name() == 'get_highlight' and not f.blocks[c.bb].get('cleanup')]
+    if len(cs) != 1:
+        raise AnchorMissing('one call of get_highlight in get_snippet (found %d)' % len(cs))
+    c = cs[0]
+    for idx, (pos, what) in enumerate((('arg2', 'start'), ('arg3', 'end'))):
+        l = op_place(c.args[1 + idx])['l']
+        while True:
+            ds = [x for x in f.defs_of(l) if x[0] == 'assign']
+            if len(ds) == 1 and ds[0][3]['k'] == 'use' and op_place(ds[0][3]['a']) is not None and is_bare(op_place(ds[0][3]['a'])):
+                l = op_place(ds[0][3]['a'])['l']
+                continue
+            break
+        table = {}
+        for dd in ds:
+            val = guards._norm_elem(_vexpr_def(f, dd, 10, set()), f.path)
+            conds = [guards.canon(guards._norm_elem(g, f.path)) for g in guards.guard_set(prog, f, dd[1]) if not guards._LOOP_HAS_NEXT.match(g)]
+            table[val] = conds
+        on_row = [r'^Eq\(Add\(1,elem\.0\),%s\.row\)$' % pos, r'^Eq\(%s\.row,Add\(1,elem\.0\)\)$' % pos, r'^Eq\(elem\.0,Sub\(%s\.row,1\)\)$' % pos]
+        off_row = [x.replace('^Eq', '^Ne') for x in on_row]
+        edge = 'Sub(%s.col,1)' % pos
+        other = '0' if what == 'start' else None
+        probs = []
+        if edge not in table or not any(re.match(p_, g) for p_ in on_row for g in table[edge]):
+            probs.append('on the %s line of the span the bound is not %s.col - 1 (values %s)' % (('first', 'last')[idx], what, sorted(table)))
+        rest = [v for v in table if v != edge]
+        if len(rest) != 1 or (other is not None and rest[0] != other) or (other is None and not re.match(r'^count\(chars\(.*elem\.1\)\)$|^count\(chars\(next\(.*\) as Some\.0\.1\)\)$', rest[0])):
+            probs.append('on the other lines the bound is %s (expected %s)' % (rest, other if other is not None else 'the number of characters of the line'))
+        elif not any(re.match(p_, g) for p_ in off_row for g in table[rest[0]]):
+            probs.append('the other-lines value %s is not selected by the line number differing from %s.row (%s)' % (rest[0], pos, table[rest[0]]))
+        if probs:
+            r.finding('highlight-bound:%s' % what, c.span, '; '.join(probs))
+        else:
+            r.ok('underline %s: %s.col - 1 on the span\'s %s line, %s elsewhere; lines numbered from 1' % (what, what, ('first', 'last')[idx], rest[0][:40]))
+    r.floor(2)
+
+
 def r_snippet_arithmetic(r, prog):
     guards.evaluate(r, prog, rule_scopes.guards_snippet, 'guards_snippet.json', 4)
 
@@ -411,5 +452,6 @@ def run(ctx):
     ctx.run_rule('C09.2', 'T1', 'cursor discipline in the three lexers', r_cursor_discipline, prog)
     ctx.run_rule('C09.3', 'T4', 'token locations come from the cursor, read before any repositioning', r_token_locations, prog)
     ctx.run_rule('C09.4a', 'T10', 'snippets count characters, not bytes', r_snippet_units, prog)
+    ctx.run_rule('C09.4c', 'T10', 'the underline starts at start.col - 1 on the first line (0 on the others) and ends at end.col - 1 on the last (the line width on the others)', r_highlight_bounds, prog)
     ctx.run_rule('C09.4b', 'T13', 'highlight arithmetic conditions (precondition ledger)', r_snippet_arithmetic, prog)
     ctx.run_rule('C09.5', 'T10', 'doc comment extent', r_doc_comment_span, prog, ctx.cache_dir)
